@@ -110,9 +110,27 @@ def _key(v):
     return (0, v) if not isinstance(v, str) else (1, v)
 
 
-def aggregate(op, vals):
-    """vals: list of values (ArgMin family: list of (arg, value) pairs or
-    (arg, value, k))."""
+# Deviations of the SQLite engine from the documented semantics that are recorded as
+# open known findings; the evaluator can reproduce each so that a mismatch can be
+# attributed to exactly that root cause (never used to decide "pass").
+QUIRKS = ('list_keeps_null', 'empty_list', 'empty_count')
+
+
+def aggregate(op, vals, quirks=()):
+    """vals: list of values (ArgMin family: list of (arg, value) pairs)."""
+    if op == 'Count' and not vals and 'empty_count' in quirks:
+        return 0
+    if op in ('List', 'Set'):
+        if not vals and 'empty_list' in quirks:
+            return Bag([])
+        if 'list_keeps_null' in quirks and vals:
+            if op == 'List':
+                return Bag(vals)
+            seen = []
+            for v in vals:
+                if v not in seen:
+                    seen.append(v)
+            return Bag(seen)
     if op in ('Sum', '+'):
         nn = [atom(v) for v in vals if v is not None]
         return sum(nn) if nn else None
@@ -371,7 +389,8 @@ class Hoister(object):
 # ----------------------------------------------------------------- evaluator
 
 class Evaluator(object):
-    def __init__(self, prog, overrides=None, budget=400000, rules_of=None):
+    def __init__(self, prog, overrides=None, budget=400000, rules_of=None, quirks=()):
+        self.quirks = tuple(quirks)
         self.prog = prog
         self.inj = prog.get('inj', {})
         self.overrides = overrides or {}
@@ -448,7 +467,7 @@ class Evaluator(object):
             for key, aggs in groups.values():
                 row = dict(key)
                 for f, (op, vals) in aggs.items():
-                    row[f] = aggregate(op, vals)
+                    row[f] = aggregate(op, vals, self.quirks)
                 rows.append(collections.OrderedDict((f, row[f]) for f in order))
         if name in self.order_by or name in self.limit:
             rows = self.order_limit(name, rows)
@@ -542,16 +561,14 @@ class Evaluator(object):
             l = atom(self.ev(e[2], env))
             if l is None:
                 return None
-            if x is None:
-                return None
-            res = 0
+            # membership of / among nulls is not specified by the documentation
+            # (SQLite: a Python UDF says null in [null] is true): not asserted
+            if x is None or any(it is None for it in l):
+                raise Ambiguous()
             for it in l:
-                c = cmpv('==', x, it)
-                if c == 1:
+                if cmpv('==', x, it) == 1:
                     return 1
-                if c is None:
-                    res = None
-            return res
+            return 0
         if k == 'arrow':
             raise ValueError('arrow outside ArgMin/ArgMax')
         raise ValueError(e)
@@ -590,7 +607,7 @@ class Evaluator(object):
         sub = self.solve(body, dict(env),
                          scope_vars | own_vars(body) | expr_vars(expr, deep=False))
         vals = [self.agg_input(op, expr, s) for s in sub]
-        return aggregate(op, vals)
+        return aggregate(op, vals, self.quirks)
 
     def step(self, l, env, scope_vars):
         k = l[0]
